@@ -90,7 +90,7 @@ def oracleLine (pid kind : String) (args : List String) (go : String) : String :
   | "C14", "prog", [steps] => walkComposite pid "twocol" steps go
   | "C15", "prog", [steps] => walkComposite pid "deftable" steps go
   | "C16", "prog", [steps] => walkComposite pid "table" steps go
-  | "C08", "pool", [steps] => poolVerdict steps go
+  | "C08", "pool", [steps] | "C20", "pool", [steps] => poolVerdict steps go
   | "C18", _, _ => totalityVerdict go
   | _, _, _ => "skip:no-oracle"
 
